@@ -68,6 +68,8 @@ class NetworkEnvelope:
         checksum = s.read(4)
         # payload is of length payload_length
         payload = s.read(payload_length)
+        if len(payload) != payload_length:
+            raise RuntimeError("payload is shorter than the declared length")
         # verify checksum
         calculated_checksum = hash256(payload)[:4]
         if calculated_checksum != checksum:
